@@ -224,6 +224,111 @@ impl GNode {
 	}
 }
 
+// ---- token encoding of a written pipeline for the Lean side (`C18r <d> <tokens>`, see VtModel/VplSyntax.lean) ----
+
+fn enc_ws(w: &str) -> String {
+	if w.is_empty() {
+		return "-".into();
+	}
+	w.chars()
+		.map(|c| match c {
+			' ' => 's',
+			'\t' => 't',
+			'\r' => 'r',
+			'\n' => 'n',
+			_ => panic!("not whitespace"),
+		})
+		.collect()
+}
+fn enc_item(it: &GItem, o: &mut Vec<String>) {
+	match it {
+		GItem::Bare(s) => {
+			o.push("b".into());
+			o.push(hs(s));
+		}
+		GItem::Quoted(_, body) => {
+			o.push("q".into());
+			let mut q = vec![];
+			let mut cs = body.chars();
+			while let Some(c) = cs.next() {
+				if c == '\\' {
+					q.push(match cs.next().unwrap() {
+						'\\' => "eb".to_string(),
+						'"' => "eq".into(),
+						'n' => "en".into(),
+						't' => "et".into(),
+						_ => panic!("bad escape in generator"),
+					});
+				} else {
+					q.push(format!("r{:x}", c as u32));
+				}
+			}
+			o.push(if q.is_empty() { "-".into() } else { q.join(".") });
+		}
+	}
+}
+impl GPipe {
+	fn encode(&self, o: &mut Vec<String>) {
+		assert!(self.pre.is_empty() && self.post.is_empty());
+		o.push("I".into());
+		o.push(self.nodes.len().to_string());
+		for n in &self.nodes {
+			n.encode(o);
+		}
+	}
+}
+impl GNode {
+	fn encode(&self, o: &mut Vec<String>) {
+		o.push("N".into());
+		o.push(enc_ws(&self.pre));
+		o.push(hs(&self.name));
+		o.push(self.props.len().to_string());
+		for p in &self.props {
+			o.push(enc_ws(&p.ws));
+			o.push(hs(&p.key));
+			o.push(enc_ws(&p.wa));
+			o.push(enc_ws(&p.wb));
+			match &p.val {
+				GVal::Scalar(it) => {
+					o.push("S".into());
+					enc_item(it, o);
+				}
+				GVal::List(w0, items, w1) => {
+					o.push("L".into());
+					o.push(enc_ws(w0));
+					o.push(items.len().to_string());
+					for (i, (wa, wb, it)) in items.iter().enumerate() {
+						if i > 0 {
+							o.push(enc_ws(wa));
+							o.push(enc_ws(wb));
+						}
+						enc_item(it, o);
+					}
+					o.push(enc_ws(w1));
+				}
+			}
+		}
+		o.push(enc_ws(&self.ws_s));
+		match &self.srcs {
+			None => o.push("X".into()),
+			Some((w0, pipes, w1)) if pipes.is_empty() => {
+				assert!(w1.is_empty());
+				o.push("E".into());
+				o.push(enc_ws(w0));
+			}
+			Some((w0, pipes, w1)) => {
+				assert!(w0.is_empty() && w1.is_empty());
+				o.push("P".into());
+				o.push(pipes.len().to_string());
+				for p in pipes {
+					p.encode(o);
+				}
+			}
+		}
+		o.push(enc_ws(&self.post));
+	}
+}
+
 const WS: &[&str] = &["", "", " ", " ", "  ", "\t", "\n", "\r\n", " \n\t ", "\n\n   ", "\r"];
 const WS1: &[&str] = &[" ", " ", "  ", "\t", "\n", "\r\n", " \n\t ", "\n   ", "\r"];
 
@@ -354,10 +459,12 @@ fn gen_node(rng: &mut Rng, st: &Style, depth: usize, width: u64) -> GNode {
 	};
 	let props = (0..np).map(|_| gen_prop(rng, st)).collect();
 	let srcs = if depth > 1 && rng.chance(2, 3) {
+		// slots: `[` ws `]` when empty; otherwise the whitespace inside the brackets belongs to the operations
 		let n = if rng.chance(1, 8) { 0 } else { rng.range(1, width) };
-		Some((ws(rng, st.ws), (0..n).map(|_| gen_pipe(rng, st, depth - 1, width)).collect(), ws(rng, st.ws)))
+		let w0 = if n == 0 { ws(rng, st.ws) } else { String::new() };
+		Some((w0, (0..n).map(|_| gen_pipe(rng, st, depth - 1, width)).collect(), String::new()))
 	} else if rng.chance(1, 12) {
-		Some((ws(rng, st.ws), vec![], ws(rng, st.ws)))
+		Some((ws(rng, st.ws), vec![], String::new()))
 	} else {
 		None
 	};
@@ -366,7 +473,8 @@ fn gen_node(rng: &mut Rng, st: &Style, depth: usize, width: u64) -> GNode {
 
 fn gen_pipe(rng: &mut Rng, st: &Style, depth: usize, width: u64) -> GPipe {
 	let n = if rng.chance(1, 3) { 1 } else { rng.range(1, width) };
-	GPipe { pre: ws(rng, st.ws), nodes: (0..n).map(|_| gen_node(rng, st, depth, width)).collect(), post: ws(rng, st.ws) }
+	// whitespace around a pipeline is the `pre` of its first and the `post` of its last operation
+	GPipe { pre: String::new(), nodes: (0..n).map(|_| gen_node(rng, st, depth, width)).collect(), post: String::new() }
 }
 
 // ------------------------------------------------------------------------------------------------
@@ -1217,7 +1325,7 @@ fn replay_line(out: &mut Out, rt: &tokio::runtime::Runtime, dir: &Path, line: &s
 pub fn run(args: &Args) {
 	quiet_panics();
 	let mut out = Out::new(&args.out);
-	out.rule = "parse: concrete syntax trees (depth ≤ 4, width ≤ 4; names/keys from the identifier alphabet; values with spaces, quotes, backslashes, brackets, commas, unicode, empty) × layout styles (tight / single spaces / free whitespace incl. tabs and line breaks; bare / quoted / mixed; scalar / bracketed) → expected tree = the generating tree with repeated keys appended; then 9 mutation classes of the rendered texts (delete/insert/replace a character, unbalance brackets, drop '=', break quotes/escapes, separators, truncation) judged by an independent recursive-descent reference parser; build: pipelines over the 7 real operations, well-formed or with exactly one planted defect (unknown operation, missing required parameter, mistyped number/boolean/array, duplicate scalar, unknown parameter, too few sources) → PipelineFactory::operation_from_vpl verdict; order: parse_vpl(text)?.split() (head, tail in text order) on valid and mutated texts, and pipelines whose transform stages carry unique markers (layer_name) → the nesting order of the stages in the Debug output of the operation that the factory actually builds (outermost first = reverse text order, sources in order) vs the order demanded by the text. non-trivial: parse texts whose tree has ≥ 1 parameter and (≥ 2 operations or a nested source), all their mutations that differ from the original, all build cases; distinct by case text".into();
+	out.rule = "parse: concrete syntax trees (depth ≤ 4, width ≤ 4; names/keys from the identifier alphabet; values with spaces, quotes, backslashes, brackets, commas, unicode, empty) × layout styles (tight / single spaces / free whitespace incl. tabs and line breaks; bare / quoted / mixed; scalar / bracketed) → expected tree = the generating tree with repeated keys appended; every second written pipeline is also sent to the Lean side as syntax tree + layout (C18r): the model's `render` must produce the same text and `treeOf` the same tree as the harness; then 9 mutation classes of the rendered texts (delete/insert/replace a character, unbalance brackets, drop '=', break quotes/escapes, separators, truncation) judged by an independent recursive-descent reference parser; build: pipelines over the 7 real operations, well-formed or with exactly one planted defect (unknown operation, missing required parameter, mistyped number/boolean/array, duplicate scalar, unknown parameter, too few sources) → PipelineFactory::operation_from_vpl verdict; order: parse_vpl(text)?.split() (head, tail in text order) on valid and mutated texts, and pipelines whose transform stages carry unique markers (layer_name) → the nesting order of the stages in the Debug output of the operation that the factory actually builds (outermost first = reverse text order, sources in order) vs the order demanded by the text. non-trivial: parse texts whose tree has ≥ 1 parameter and (≥ 2 operations or a nested source), all their mutations that differ from the original, all build cases; distinct by case text".into();
 	let rt = tokio::runtime::Builder::new_current_thread().enable_all().build().unwrap();
 	let dir = args.out.join("c18fix");
 	std::fs::create_dir_all(&dir).unwrap();
@@ -1300,6 +1408,14 @@ pub fn run(args: &Args) {
 		let r = ref_parse(&text);
 		assert_eq!(r, expected, "harness bug: reference parser disagrees with the generating tree on {text:?}");
 		emit_parse(&mut out, &text, &expected, "generated", nontrivial);
+		// the written pipeline itself goes to the Lean side: its `render` must be this text, its `treeOf` this tree
+		if i % 2 == 1 {
+			let mut toks = vec![];
+			p.encode(&mut toks);
+			out.case(&format!("C18r {} {}", p.depth().saturating_sub(1), toks.join(",")), &format!("{} {}", hs(&text), dump_tpipe(&tree)), nontrivial);
+			out.count("render_cases");
+			out.oracle(true, "", json!(null), json!(null));
+		}
 		if i % 2 == 0 || valid_texts.len() < 2000 {
 			valid_texts.push((text, nontrivial));
 		}
